@@ -399,7 +399,35 @@ pub fn rfc_valid(rng: &mut Rng, mut m: Item) -> Item {
             }
             tlv_ext(rng, &mut m);
         }
-        "server_hello" | "server_hello_d18" | "hello_retry_request" => tlv_ext(rng, &mut m),
+        "server_hello" => tlv_ext(rng, &mut m),
+        "server_hello_d18" => {
+            // draft-18: the extension vector is not optional
+            if m.ob("ext").is_none() {
+                m.set("ext", Val::Bytes(extension_block(rng, 60)));
+            }
+            tlv_ext(rng, &mut m);
+        }
+        "hello_retry_request" => {
+            // Extension extensions<2..2^16-1>: at least one extension
+            tlv_ext(rng, &mut m);
+            if m.ob("ext").map(|b| b.is_empty()).unwrap_or(true) {
+                let mut e = crate::structs::extension(rng);
+                if rng.chance(1, 2) {
+                    e = vec![0, 43, 0, 2, 0x7f, 0x12];
+                }
+                m.set("ext", Val::Bytes(e));
+            }
+        }
+        "new_session_ticket" => {
+            // RFC 5077: uint32 lifetime hint, opaque ticket<0..2^16-1>
+            let t = m.b("ticket").to_vec();
+            let ok = t.len() >= 2 && 2 + (((t[0] as usize) << 8) | t[1] as usize) == t.len();
+            if !ok {
+                let mut full = (t.len() as u16).to_be_bytes().to_vec();
+                full.extend(t);
+                m.set("ticket", Val::Bytes(full));
+            }
+        }
         "certificate" => {
             let certs: Vec<Vec<u8>> = m.l("certs").iter().map(|c| if c.is_empty() { vec![0x30] } else { c.clone() }).collect();
             m.set("certs", Val::List(certs));
@@ -413,10 +441,19 @@ pub fn rfc_valid(rng: &mut Rng, mut m: Item) -> Item {
             m.set("cas", Val::List(cas));
         }
         "server_done" => m.set("body", Val::Bytes(Vec::new())),
-        "certificate_verify" | "client_key_exchange" | "finished" => at_least_one(rng, &mut m, "body"),
-        "certificate_status" => at_least_one(rng, &mut m, "blob"),
-        "server_key_exchange" => at_least_one(rng, &mut m, "params"),
+        // bodies this crate keeps opaque but the RFCs give a structure (digitally-signed, key-exchange
+        // parameters, verify_data, OCSP response with status_type 1/2, KeyUpdate 0/1): only
+        // structurally valid ones travel under the strict value oracles
+        "certificate_verify" | "client_key_exchange" | "finished" | "certificate_status" | "server_key_exchange" | "key_update" => {
+            m = semantic(rng, m, 300);
+            if m.kind == "certificate_status" && m.u("stype") == 0 {
+                m.set("stype", Val::Int(1));
+            }
+        }
         "heartbeat" => {
+            if m.u("hbtype") != 1 && m.u("hbtype") != 2 {
+                m.set("hbtype", Val::Int(1 + rng.below(2)));
+            }
             // RFC 6520: a HeartbeatMessage never exceeds 2^14 bytes
             let plen = m.b("payload").len();
             if 3 + plen > 16384 {
@@ -495,7 +532,8 @@ pub fn d_hello_verify(rng: &mut Rng) -> Item {
         1 => 255,
         _ => rng.small_len(255),
     };
-    Item::new("d_hello_verify").int("ver", *rng.pick(&[0xfeffu16, 0xfefd]) as u64).bytes("cookie", &rng.bytes(cookie_len))
+    let ver = if rng.chance(1, 4) { rng.u16() } else { *rng.pick(&[0xfeffu16, 0xfefd, 0xfefc, 0x0100]) };
+    Item::new("d_hello_verify").int("ver", ver as u64).bytes("cookie", &rng.bytes(cookie_len))
 }
 
 /// an interesting record content-type byte
